@@ -137,18 +137,29 @@ func fragsS(fs []bbc.Fragment) S {
 type c12T struct {
 	tid   byte
 	blob  []byte
-	bndl  []byte
+	bndl  []byte // the bundle the blob decodes to; empty: the blob does not decode
 	frags []bbc.Fragment
+	cls   string // how the train was made (histories only, see bbc_c12_hist.go)
 }
 
 type c12Ref struct{ k, i int } // i == -1: a peer's failure fragment for train k's id
 
 // rxCase feeds the referenced fragments to a fresh Connector and writes the case.
 func c12Rx(o *Out, label string, mtu int, ts []c12T, refs []c12Ref) {
+	c12RxK(o, "rx", label, mtu, ts, refs)
+}
+
+// c12RxK: kind "rx" = trains with pairwise distinct ids; kind "hist" = histories in which ids are
+// used again (each train entry carries its class).
+func c12RxK(o *Out, kind, label string, mtu int, ts []c12T, refs []c12Ref) {
 	conn := bbc.NewConnector(newScriptModem(mtu), false)
 	var tl, rl, steps []S
 	for _, t := range ts {
-		tl = append(tl, L(U(uint64(t.tid)), X(t.blob), X(t.bndl), fragsS(t.frags)))
+		if kind == "rx" {
+			tl = append(tl, L(U(uint64(t.tid)), X(t.blob), X(t.bndl), fragsS(t.frags)))
+		} else {
+			tl = append(tl, L(U(uint64(t.tid)), X(t.blob), X(t.bndl), fragsS(t.frags), Sym(t.cls)))
+		}
 	}
 	for _, ref := range refs {
 		var f bbc.Fragment
@@ -191,7 +202,7 @@ func c12Rx(o *Out, label string, mtu int, ts []c12T, refs []c12Ref) {
 		rl = append(rl, L(I(ref.k), I(ref.i+1))) // index+1 so that 0 = peer failure fragment
 		steps = append(steps, L(B(herr != nil), LL(ff), LL(ft), LL(dl), LL(op)))
 	}
-	o.Case("rx", Sym(label), I(mtu), LL(tl), LL(rl), LL(steps))
+	o.Case(kind, Sym(label), I(mtu), LL(tl), LL(rl), LL(steps))
 }
 
 func refsOf(k, n int) []c12Ref {
@@ -373,7 +384,7 @@ func genC12bbc(o *Out, r *Rng, thorough bool) {
 			if err != nil {
 				panic(err)
 			}
-			ts := []c12T{{tid, blob, bb, frags}}
+			ts := []c12T{{tid, blob, bb, frags, ""}}
 			base := refsOf(0, len(frags))
 			c12Rx(o, "nofault", mtu, ts, base)
 			for i := range base {
@@ -390,6 +401,12 @@ func genC12bbc(o *Out, r *Rng, thorough bool) {
 			for _, n := range []int{15, 16, 17, 32} {
 				if len(base) > n+2 {
 					at := 1 + r.Intn(len(base)-n-1)
+					// a whole turn of the counter lost inside the xz trailer (index, footer) is not even
+					// noticed by the decoder, which stops reading after the bundle: the identical bundle
+					// is delivered.  The model's decoder oracle knows whole blobs only: move the burst.
+					for n%16 == 0 && at > 1 && c12Decode(c12Concat(append(append([]bbc.Fragment(nil), frags[:at]...), frags[at+n:]...))) != nil {
+						at--
+					}
 					out := append([]c12Ref(nil), base[:at]...)
 					c12Rx(o, fmt.Sprintf("burst%d", n), mtu, ts, append(out, base[at+n:]...))
 				}
@@ -404,7 +421,7 @@ func genC12bbc(o *Out, r *Rng, thorough bool) {
 		if err != nil || len(frags) != 1 {
 			panic("single-fragment train expected")
 		}
-		ts := []c12T{{tid, blob, BundleBytes(b), frags}}
+		ts := []c12T{{tid, blob, BundleBytes(b), frags, ""}}
 		base := refsOf(0, 1)
 		c12Rx(o, "nofault", 2000, ts, base)
 		c12Rx(o, "drop", 2000, ts, nil)
@@ -440,7 +457,7 @@ func genC12bbc(o *Out, r *Rng, thorough bool) {
 			if err != nil {
 				panic(err)
 			}
-			ts = append(ts, c12T{tid, blob, BundleBytes(b), frags})
+			ts = append(ts, c12T{tid, blob, BundleBytes(b), frags, ""})
 			l := refsOf(k, len(frags))
 			nf := r.Intn(4)
 			if r.Intn(3) == 0 {
